@@ -196,7 +196,18 @@ struct ProdT : IProd {
     else if (q == "bounds_from_below") ANSB(p.bounds_from_below(read_expr(tk, d, b)));
     else if (q == "affine_dimension") std::cout << "ans n " << p.affine_dimension() << "\n";
     else if (q == "relation_with_con") print_rel(p.relation_with(read_con(tk, d)));
-    else if (q == "relation_with_cg") print_rel(p.relation_with(read_cg(tk, d)));
+    else if (q == "relation_with_cg") {
+      // the product's answer, then what each component answers on its own (after the reduction the call implies):
+      // lets the judge attribute a wrong definite answer to the component domain that produced it
+      Congruence cg = read_cg(tk, d);
+      Poly_Con_Relation r = p.relation_with(cg);
+      D1 a(p.d1); D2 b(p.d2);
+      Poly_Con_Relation r1 = a.relation_with(cg), r2 = b.relation_with(cg);
+      std::cout << "ans rel " << (r.implies(Poly_Con_Relation::is_disjoint()) ? 1 : 0) << " " << (r.implies(Poly_Con_Relation::is_included()) ? 1 : 0) << " "
+                << (r.implies(Poly_Con_Relation::saturates()) ? 1 : 0) << " " << (r.implies(Poly_Con_Relation::strictly_intersects()) ? 1 : 0)
+                << " comp " << (r1.implies(Poly_Con_Relation::is_disjoint()) ? 1 : 0) << " " << (r1.implies(Poly_Con_Relation::is_included()) ? 1 : 0)
+                << " " << (r2.implies(Poly_Con_Relation::is_disjoint()) ? 1 : 0) << " " << (r2.implies(Poly_Con_Relation::is_included()) ? 1 : 0) << "\n";
+    }
     else if (q == "relation_with_gen") { Poly_Gen_Relation r = p.relation_with(read_gen(tk, d)); std::cout << "ans b " << (r.implies(Poly_Gen_Relation::subsumes()) ? 1 : 0) << "\n"; }
     else if (q == "maximize" || q == "minimize") {
       Linear_Expression e = read_expr(tk, d, b); Coefficient n, dn; bool m = false;
